@@ -25,10 +25,11 @@ META = {
             "Transfer-Encoding at all (C03_parsed_header_single_content_length: HttpHeader::parse leaves <= 1 "
             "Content-Length entry and none next to Transfer-Encoding, for ALL header blocks). "
             "(5) C03_reject_stops_reading: for ALL streams an error answer / reset / close / unfinished body is the last "
-            "event. (6) C03_vt_after_chunked_refuted: the full boundary statement is false for the faithful model — "
-            "`Transfer-Encoding: chunked<VT>` is honoured as chunked in both parser modes and the embedded request is "
-            "forwarded as a second request (known finding C03-vt-ff-as-ows, replayed against the running proxy on every "
-            "run). Tie: method ids, status codes, body-pipe capacity, character sets, header table regenerated from the code; "
+            "event. (6) C03_vt_after_chunked_rejected / C03_vt_content_length_rejected: the former finding "
+            "C03-vt-ff-as-ows (`Transfer-Encoding: chunked<VT>` honoured as chunked, embedded request forwarded) is repaired "
+            "in /repo (cc868a1): the witness streams are now answered 501 / 400 in both parser modes, as theorems and as "
+            "regression scenarios replayed against the running proxy. C03_vt_in_chunk_ext_refuted: the relaxed parser still "
+            "reads VT as bad white space inside a chunk extension (known finding C03-chunk-ext-bws-vt-ff). Tie: method ids, status codes, body-pipe capacity, character sets, header table regenerated from the code; "
             "the extracted model is diffed against the REAL squid (both parser modes) on generated pipelined streams with "
             "Content-Length / Transfer-Encoding / white-space / line-ending / NUL / bare-CR / obs-fold / duplicate-field / "
             "chunk-extension / trailer anomalies and CL.TE / TE.CL / TE.TE payloads; a scripted origin logs every request "
@@ -41,8 +42,8 @@ META = {
             "the decoder's leftover from one side only; (c) the stream-level induction over messages from (2)+(3) is not "
             "spelled out; (d) request-target validation (AnyP::Uri), CONNECT/OPTIONS/TRACE/PRI and Expect handling are "
             "outside the model (distinct EOther event); (e) that comm, BodyPipe and FwdState move exactly the delimited "
-            "bytes rests on the end-to-end correspondence. Two known findings on the unchanged tree: C03-vt-ff-as-ows "
-            "(request-smuggling shape, candidate repair in fixes/) and C03-http09-version-token. Trusted: Coq kernel, "
+            "bytes rests on the end-to-end correspondence. Known findings at /repo HEAD: C03-chunk-ext-bws-vt-ff "
+            "(relaxed mode only) and C03-http09-version-token; the former C03-vt-ff-as-ows is repaired (cc868a1). Trusted: Coq kernel, "
             "extraction, gen/gen_smuggling.cc, vlib/lab.py stubs, the reference readers in checks/c03.py.",
     "technique": "Coq proof (induction over the connection loop and over the header entries, line-structure lemmas for "
                  "headersEnd, reuse of the C22/C24 theorems, vm_compute witness) + end-to-end differential correspondence "
@@ -83,7 +84,8 @@ def _read_line(s, i, lenient):
 
 def _chunk_ext_ok(ext, lenient):
     """ext = what follows the chunk-size up to the line end: *( BWS ";" BWS name [ BWS "=" BWS ( token / quoted-string ) ] )"""
-    ws = b" \t\x0b\x0c\r" if lenient >= 2 else b" \t"      # level 2: see ref_read
+    xchunk = lenient in (2, 4)                         # see ref_read
+    ws = b" \t\x0b\x0c\r" if xchunk else b" \t"
     i, n = 0, len(ext)
 
     def bws(i):
@@ -93,7 +95,7 @@ def _chunk_ext_ok(ext, lenient):
     while True:
         k = bws(i)
         if k == n:
-            return k == i          # trailing BWS alone is not part of the grammar
+            return k == i or xchunk   # trailing BWS alone is not part of the grammar
         if ext[k] != 0x3b:
             return False
         i = bws(k + 1)
@@ -202,6 +204,8 @@ def _read_message(s, i, lenient):
         if first and lenient and line[:1] in (b" ", b"\t", b"\x0b", b"\x0c", b"\r"):
             continue                                   # RFC 9112 2.2: consume whitespace-preceded lines after the start-line
                                                        # (white space as in RFC 9112 3: SP, HTAB, VT, FF, bare CR)
+        if lenient and b"\r" in line:
+            line = line.replace(b"\r", b" ")           # RFC 9112 2.2: bare CR -> SP (before looking for obs-fold)
         if line[:1] in (b" ", b"\t"):
             if not lenient or not fields:
                 raise Invalid("leading white space / obs-fold")
@@ -217,7 +221,7 @@ def _read_message(s, i, lenient):
         if c <= 0 or any(ch not in TCHAR for ch in line[:c]):
             raise Invalid("field-name")                # includes white space before the colon (RFC 9112 5.1: MUST reject)
         fields.append((line[:c].lower(), line[c + 1:]))
-    ows = b" \t\x0b\x0c" if lenient >= 2 else b" \t"         # level 2: see ref_read
+    ows = b" \t"                                      # OWS = SP / HTAB for every reader (RFC 9110 5.6.3)
     te = [_ows_strip(v, ows) for n, v in fields if n == b"transfer-encoding"]
     cl = [_ows_strip(v, ows) for n, v in fields if n == b"content-length"]
     body = b""
@@ -233,7 +237,8 @@ def _read_message(s, i, lenient):
         body, i = _read_chunked(s, i, lenient)
     elif cl:
         if lenient:                                    # RFC 9112 6.3: identical values / a list of identical values
-            vals = [x.strip(ows) for v in cl for x in v.split(b",")]
+            lws = b" \t\x0b\x0c" if lenient in (3, 4) else ows            # see ref_read
+            vals = [x.strip(lws) if b"," in v else x for v in cl for x in v.split(b",")]
             if any(b"," in v for v in cl):             # RFC 9110 5.6.1.2: a recipient ignores empty list elements
                 vals = [x for x in vals if x]
             if not vals:
@@ -254,9 +259,10 @@ def _read_message(s, i, lenient):
 
 def ref_read(s, lenient):
     """delimit the whole stream: (messages, how it ended: 'clean' | 'incomplete' | 'invalid:<why>').
-    lenient = 0: strict RFC 9112 reader; 1: the reader that takes every tolerance RFC 9112 offers; 2: level 1 plus VT and
-    FF read as optional white space around Content-Length / Transfer-Encoding values and in chunk-ext BWS — NOT an RFC
-    tolerance; used only to name the known finding C03-vt-ff-as-ows precisely."""
+    lenient = 0: strict RFC 9112 reader; 1: the reader that takes every tolerance RFC 9112 offers.  Levels 2-4 add
+    tolerances that are NOT in the RFC and are used only to name known findings precisely: 2 = white space beyond the
+    grammar on a chunk line (VT/FF/CR as BWS inside chunk extensions, BWS before the CRLF); 3 = VT/FF as white space around
+    the elements of a Content-Length LIST; 4 = both."""
     out = []
     i = 0
     while i < len(s):
@@ -747,13 +753,18 @@ def oracle(s, obs):
         return ("oracle:reference-inconsistent", "the tolerant reference reader delimits fewer messages than the strict one")
     v = compare(items, lenient, l_end, len(strict))
     if v and v[0] in BOUNDARY_SIGS:
-        # name the one known deviation precisely: VT / FF read as optional white space in framing elements
-        xref, x_end = ref_read(data, 2)
-        if compare(items, xref, x_end, len(strict)) is None:
-            return ("oracle:vt-ff-as-ows-in-framing:" + v[0].split(":", 1)[1],
-                    "squid reads VT/FF next to a Content-Length / Transfer-Encoding value or in chunk-ext BWS as optional white "
-                    "space and forwards accordingly; a strict RFC 9112 reader (and one using every RFC tolerance) rejects the "
-                    "message: " + v[1])
+        # name the known deviations precisely
+        for level, sig, what in (
+                (2, "oracle:chunk-line-bws", "squid accepts white space beyond the chunk grammar on a chunk line (VT/FF/CR as BWS inside "
+                    "chunk extensions with relaxed_header_parser, BWS before the CRLF in both modes) and de-chunks accordingly"),
+                (3, "oracle:cl-list-vt-ff", "squid (relaxed_header_parser) skips VT/FF around the elements of a Content-Length list "
+                    "(strListGetItem delimiters) and uses the common value"),
+                (4, "oracle:cl-list-vt-ff+chunk-line-bws", "squid accepts VT/FF in a Content-Length list and white space beyond the "
+                    "grammar on a chunk line")):
+            xref, x_end = ref_read(data, level)
+            if compare(items, xref, x_end, len(strict)) is None:
+                return (sig + ":" + v[0].split(":", 1)[1],
+                        what + "; a strict RFC 9112 reader (and one using every RFC tolerance) rejects the message: " + v[1])
     if v and v[0] == "oracle:smuggled-request":
         # second known deviation: a request line carrying the version token HTTP/0.9 (any method but GET: GET with any
         # HTTP/0.x is always answered 400) is accepted as an HTTP/0.9 request: no field block is read, the request goes
